@@ -593,6 +593,36 @@ func replayStats(prop string) *Stats {
 var unknownKeysP1 = []int64{0, 1, 7, 11, 255, 257, 264, 266, 2393, 2401, -1, -74999, -75011, -75100, 1 << 40, -(1 << 40), 10, 256, 2394, 2395, 2396, 2397, 2398, 2399, 2400}
 var unknownKeysP2 = []int64{0, 1, 7, 11, 255, 257, 264, 266, 2393, 2401, -1, -74999, -75011, -75100, 1 << 40, -(1 << 40), -75000, -75001, -75002, -75003, -75004, -75005, -75006, -75007, -75008, -75009, -75010}
 
+var denseKeyCache = map[Prof][]int64{}
+
+// denseUnknownKeys: every integer in [-40, 60], [240, 300], [2380, 2420],
+// [-75030, -74980], [60000, 60010] that is not a key of profile p.
+func denseUnknownKeys(p Prof) []int64 {
+	if r, ok := denseKeyCache[p]; ok {
+		return r
+	}
+	known := map[int64]bool{}
+	for c := Claim(0); c < nClaims; c++ {
+		known[wireKey(p, c)] = true
+	}
+	if p == P1 {
+		known[-75007] = true
+	} else {
+		known[265] = true
+	}
+	known[265] = true // eat_profile selects the profile whatever the profile
+	var r []int64
+	for _, rg := range [][2]int64{{-40, 60}, {240, 300}, {2380, 2420}, {-75030, -74980}, {60000, 60010}} {
+		for k := rg[0]; k <= rg[1]; k++ {
+			if !known[k] {
+				r = append(r, k)
+			}
+		}
+	}
+	denseKeyCache[p] = r
+	return r
+}
+
 func drawUnknownValue(t *rapid.T) *icbor.Node {
 	return rapid.SampledFrom([]*icbor.Node{icbor.U(1), icbor.I(-7), icbor.Tstr("x"), icbor.Bstr([]byte{1, 2}), icbor.Bstr(make([]byte, 32)), icbor.Arr(icbor.U(1)), icbor.Arr(), icbor.Map(icbor.P(icbor.U(1), icbor.U(2))), icbor.Null(), icbor.F64(1.5), icbor.Bool(true), icbor.Tstr(P2Name), icbor.Tag(1, icbor.U(0))}).Draw(t, "extra.val")
 }
@@ -608,7 +638,12 @@ func addUnknownKeys(t *rapid.T, p Prof, root *icbor.Node) (int, []wmut) {
 	for i := 0; i < n; i++ {
 		var key *icbor.Node
 		nBefore := len(muts)
-		switch rapid.IntRange(0, 5).Draw(t, "extra.keykind") {
+		switch rapid.IntRange(0, 6).Draw(t, "extra.keykind") {
+		case 6:
+			// a label that is neither an integer nor a text string: not a
+			// claims map (CWT labels are int / tstr) - must be rejected
+			key = rapid.SampledFrom([]*icbor.Node{icbor.Bool(false), icbor.Bool(true), icbor.Null(), icbor.Undef(), icbor.F64(1.5), icbor.F64(265), icbor.Simple(32), icbor.Tag(1, icbor.U(0)), icbor.Bstr([]byte{1}), icbor.Arr(), icbor.Map()}).Draw(t, "extra.oddlabel")
+			muts = append(muts, wmut{"label " + icbor.Diag(key), "label-not-int-or-text", effNonConf, ""})
 		case 0:
 			txt := rapid.SampledFrom([]string{"x", "", "psa-nonce", "265", "eat-profile", "2394", "-75001", "10", "-75008", "2400", "0265", "+265", " 265"}).Draw(t, "extra.textkey")
 			key = icbor.Tstr(txt)
@@ -620,6 +655,11 @@ func addUnknownKeys(t *rapid.T, p Prof, root *icbor.Node) (int, []wmut) {
 			if _, fits := key.Int(); !fits {
 				muts = append(muts, wmut{"unknown key " + icbor.Diag(key), "integer-key-outside-int64", effNeutral, kfHugeKey})
 			}
+		case 2, 3:
+			// any key number in the neighbourhood of the registered CWT /
+			// EAT / PSA claim keys that is not one of this profile's
+			k := rapid.SampledFrom(denseUnknownKeys(p)).Draw(t, "extra.densekey")
+			key = icbor.I(k)
 		default:
 			key = icbor.I(rapid.SampledFrom(pool).Draw(t, "extra.key"))
 		}
@@ -847,6 +887,18 @@ func TestC04_Sweep(t *testing.T) {
 			pre := fmt.Sprintf("%s/v%d/", p, variant)
 			base := mk()
 			run(p, base, base.WireNode(), nil, "")
+			// every unknown key number of the dense neighbourhoods x a few
+			// values of different types: ignored, the token stays valid
+			if variant == 0 {
+				for _, k := range denseUnknownKeys(p) {
+					for vi, v := range []*icbor.Node{icbor.Bstr(make([]byte, 32)), icbor.Bstr([]byte{1, 2, 3}), icbor.U(7), icbor.Tstr("x"), icbor.Arr(icbor.Null()), icbor.Bool(false)} {
+						m := mk()
+						root := m.WireNode()
+						root.Pairs = append(root.Pairs, icbor.P(icbor.I(k), v))
+						run(p, m, root, nil, fmt.Sprintf("%sunknown-key/%d/#%d", pre, k, vi))
+					}
+				}
+			}
 			// rule-level sweep on the wire: every byte-string claim and
 			// component field at every length 0..80 and a few larger ones
 			if variant == 1 {
